@@ -95,6 +95,8 @@ impl<T: ObsOut> ObsOut for Option<T> {
 /// can tell (Casts.tla MID32): parsed as f32 it is 1.0000001, parsed as f64 and narrowed it is 1.0
 const MID32: i64 = 777006;
 const MID32_TEXT: &str = "1.0000000596046448";
+/// the null text with a leading blank: a non-null text (Casts.tla PADNONE)
+const PADNONE: i64 = 777007;
 /// the text a string source carries for a value class (Casts.tla StrVals)
 fn str_text(v: i64) -> Option<String> {
     Some(match v {
@@ -103,6 +105,7 @@ fn str_text(v: i64) -> Option<String> {
         PINF => "inf".to_string(),
         NINF => "-inf".to_string(),
         MID32 => MID32_TEXT.to_string(),
+        PADNONE => " None".to_string(),
         BIG53 | NEGNAN => return None,
         x => x.to_string(),
     })
@@ -293,6 +296,7 @@ fn build_table() -> Vec<(&'static str, &'static str, CastFn)> {
          ("opt_isize", Option<isize>), ("opt_u8", Option<u8>), ("opt_u64", Option<u64>), ("opt_usize", Option<usize>)]
     ));
     t.push(("timedelta", "string", do_cast::<TimeDelta, String> as CastFn));
+    t.push(("string", "string", do_cast::<&'static str, String> as CastFn));
     t
 }
 
@@ -305,6 +309,7 @@ fn vname(v: i64) -> String {
         BIG53 => "2^53+2^29+1".into(),
         NEGNAN => "-NaN".into(),
         MID32 => format!("text {MID32_TEXT}"),
+        PADNONE => "text ' None'".into(),
         x => x.to_string(),
     }
 }
